@@ -54,6 +54,7 @@ type msg struct {
 	SigCounts   map[string]int `json:"sig_counts,omitempty"`
 	Steps       int64          `json:"steps,omitempty"`
 	SimNS       int64          `json:"sim_ns,omitempty"`
+	SimS        float64        `json:"sim_s,omitempty"` // simulated seconds (float: month-long runs overflow a nanosecond sum)
 	Stuck       int            `json:"stuck,omitempty"`
 	StepCap     int            `json:"step_cap,omitempty"`
 	Leaky       int            `json:"leaky_runs,omitempty"`
@@ -291,7 +292,7 @@ func TestWorker(t *testing.T) {
 		}
 		sum.Runs++
 		sum.Steps += int64(res.Steps)
-		sum.SimNS += int64(res.SimTime)
+		sum.SimS += res.SimTime.Seconds()
 		if res.Stuck {
 			sum.Stuck++
 		}
